@@ -306,7 +306,11 @@ PROPS = {
                 "damaged by one of 11 faults (RRSIG dropped, signature bit, RDATA bit, wrong signer, expired / not yet valid re-signature, one or all denial "
                 "records dropped, SOA dropped, unsigned extra RRset, all DNSSEC records stripped) must not be Secure; (c) the untouched answer with the upstream "
                 "lying about one DS or DNSKEY RRset on the chain (11 faults incl. SERVFAIL, empty answer, timeout, truncated message) must be neither Secure nor "
-                "Insecure; no panic, at most 200 upstream requests per validation; distinct = (kind of answer, denial type, fault, outcome)",
+                "Insecure; (d) the answer, or the upstream's DS/DNSKEY answer, carrying content only the zone's own operator could have signed (17 kinds: NSEC3 "
+                "owners that are not Base32hex / too long / not UTF-8 / too short, wrong hash lengths, 65535 iterations, unknown hash algorithm, broken bitmaps, "
+                "NSEC next names outside the zone or equal to the owner, DNSKEY RRsets with empty or short RSA keys or 40 extra keys, DS RRsets with short "
+                "RDATA, unknown digest types or 40 extra members) must only not panic or run away; DNAME chains and a zone signed with an imported RSA key "
+                "are part of the hierarchy; no panic, at most 200 upstream requests per validation; distinct = (kind of answer, denial type, fault, outcome)",
         "assumptions": ["ground truth comes from the construction: every fault removes or invalidates the only signature, record or proof the answer depends on",
                         "the validator reads the wall clock; signatures are made valid from one hour ago to seven days ahead, expired / future ones ten days off",
                         "a delegation whose DS RRset names only algorithms outside dnssec::validator::base::supported_algorithm is insecure (RFC 4035 5.2)",
@@ -325,7 +329,8 @@ PROPS = {
                 "name; per transmission the scripted peer sends 0-2 noise messages (wrong ID, other question, QR clear, garbage, short, an answer to another "
                 "request, questionless error with a wrong ID) and then nothing, a late answer (2.5-9 s), a questionless SERVFAIL, a truncated datagram, a "
                 "connection close (possibly mid-frame), a re-cased question or the answer, sometimes duplicated up to 6 s later; stream connects may be "
-                "refused. Oracle over the caller's result joined with the peer's log of (wire ID, query name): an Ok message has QR set, an ID that was used for "
+                "refused; every fourth case the peer is honest (each request answered once, correctly, within 0.8 s, in any order) and every request must "
+                "succeed. Oracle over the caller's result joined with the peer's log of (wire ID, query name): an Ok message has QR set, an ID that was used for "
                 "this very request, and this request's question (or, without question, an error rcode and empty sections); every request completes, and within "
                 "the transport's timeout-and-retry budget (virtual time); a truncated datagram answer is only handed out after the stream was tried; no panic; "
                 "distinct = (transport, outcome class, rcode/TC, virtual latency class, number of transmissions)",
@@ -341,7 +346,8 @@ PROPS = {
             {"mode": "asan", "shards": 4, "scale": 0.05, "tiers": ["thorough"], "cpu_budget": 900},
         ],
         "rule": "an evaluation is one request served by DgramServer (mock AsyncDgramSock) or StreamServer (mock AsyncAccept over tokio duplex streams) with the "
-                "stack MandatoryMiddlewareSvc(EdnsMiddlewareSvc(service)) under the paused tokio clock; the query name tells the service what to do: one "
+                "stack MandatoryMiddlewareSvc(EdnsMiddlewareSvc(CookiesMiddlewareSvc(service))) (cookies enabled in half of the cases; a third of the EDNS "
+                "requests carry a COOKIE option: client-only, with unknown server part, too short, between 8 and 16, too long) under the paused tokio clock; the query name tells the service what to do: one "
                 "response of n records (sizes chosen around 512, 1232, 4096 and 65535), k responses in sequence, a delayed response, or a failure. UDP: 1-24 "
                 "datagrams per case from distinct addresses, EDNS size in {none, 0, 100, 511, 512, 513, 1232, 4096, 65535}, configured maximum in {512, 1232, "
                 "4096, none}, a quarter of them hostile (short, random, QR set, QDCOUNT 65535, truncated question, mutated message, odd opcode, two OPTs), "
